@@ -1,6 +1,6 @@
 (* extraction of the chart semantics models (ExtrOcamlBasic only) *)
 Require Extraction.
 Require Import ExtrOcamlBasic.
-From V Require Import Base NameMatch Chart Exec Large Interp Spec Legal Trace Fast SetLemmas LegalAbstract LegalLarge WfCore LargeCache TraceComplete EngineEquivRun EngineEquivHistRun LegalHistWf LegalHistFastRun FlattenWf FlattenWfSide RunConformStep RunConformLoop RunConformInitialStep RunConformHistStep FlattenStaticTree FlattenStaticC01 LegalHistParWf.
+From V Require Import Base NameMatch Chart Exec Large Interp Spec Legal Trace Fast SetLemmas LegalAbstract LegalLarge WfCore LargeCache TraceComplete EngineEquivRun EngineEquivHistRun EngineEquivHistParRun LegalHistWf LegalHistFastRun FlattenWf FlattenWfSide RunConformStep RunConformLoop RunConformInitialStep RunConformHistStep FlattenStaticTree FlattenStaticC01 LegalHistParWf.
 Extraction Language OCaml.
-Extraction "vmodel.ml" wf_histpb static_hb hist_treeb eq_tree_histb c01i_treeb static_ib eq_chartb_hist eq_guard_run_hist static_okb run_guardb run_completeb l_pristine x_init eq_chartb eq_guard_run wf_initb wf_histb wf_fastb core_treeb c01_treeb trace_completeb tc_first_bad tc_init sid_pos sids_distinctb raise_names_okb run_large_c wf_coreb run_fast legal_sids wf_traceb wf_first_bad run_spec run_large flatten lg_fixed lg_pinned ex_fixed ex_pinned Build_lg_variant Build_ex_variant.
+Extraction "vmodel.ml" eq_chartb_histp wf_histpb static_hb hist_treeb eq_tree_histb c01i_treeb static_ib eq_chartb_hist eq_guard_run_hist static_okb run_guardb run_completeb l_pristine x_init eq_chartb eq_guard_run wf_initb wf_histb wf_fastb core_treeb c01_treeb trace_completeb tc_first_bad tc_init sid_pos sids_distinctb raise_names_okb run_large_c wf_coreb run_fast legal_sids wf_traceb wf_first_bad run_spec run_large flatten lg_fixed lg_pinned ex_fixed ex_pinned Build_lg_variant Build_ex_variant.
